@@ -38,6 +38,23 @@ type cdScenario struct {
 	// a document that is not a compiled model, imported once as api.json and once as api.yaml
 	Foreign string `json:"foreign"`
 	Mode    string `json:"mode"`
+	// Over: every output file already holds the artefact of an earlier, larger model when the model is written
+	Over bool `json:"over"`
+}
+
+// earlierModel is the model with one more application: what the same command wrote before the application was removed.
+func earlierModel(m *sysl.Module) *sysl.Module {
+	c := proto.Clone(m).(*sysl.Module)
+	if c.Apps == nil {
+		c.Apps = map[string]*sysl.Application{}
+	}
+	eps := map[string]*sysl.Endpoint{}
+	for _, n := range []string{"GET /removed/{id}", "Retired endpoint with a long name", "zz"} {
+		eps[n] = &sysl.Endpoint{Name: n, Docstring: "an endpoint that existed when the file was written the first time, " + n,
+			Stmt: []*sysl.Statement{{Stmt: &sysl.Statement_Action{Action: &sysl.Action{Action: "something that used to happen"}}}}}
+	}
+	c.Apps["Zz :: Removed Since"] = &sysl.Application{Name: &sysl.AppName{Part: []string{"Zz", "Removed Since"}}, Endpoints: eps}
+	return c
 }
 
 func detDigest(m proto.Message) string {
@@ -145,9 +162,16 @@ func runCodec(in, out string, _ []string) error {
 			fs := afero.NewMemMapFs()
 			var err error
 			opt := pbutil.OutputOptions{Compact: e.compact}
+			var prior []byte
+			if sc.Over {
+				em := earlierModel(m)
+				perr := libEncode(em, e.fmt, e.file, fs, pbutil.OutputOptions{})
+				w.Emit(tr.Ev{"t": sc.ID, "e": "prior", "fmt": e.fmt, "compact": e.compact, "ok": perr == nil, "full": detDigest(em), "msg": fmt.Sprint(perr)})
+				prior, _ = afero.ReadFile(fs, e.file)
+			}
 			switch {
 			case sc.Cli != "":
-				err = cliEncode(sc, text, e.fmt, e.compact, e.file, fs)
+				err = cliEncode(sc, text, e.fmt, e.compact, e.file, fs, prior)
 			default:
 				err = libEncode(m, e.fmt, e.file, fs, opt)
 			}
@@ -208,7 +232,7 @@ func libEncode(m *sysl.Module, f, file string, fs afero.Fs, opt pbutil.OutputOpt
 }
 
 // cliEncode runs "sysl pb --mode <fmt> [--compact] -o <file>" in a scratch directory and copies the bytes into fs.
-func cliEncode(sc cdScenario, text, f string, compact bool, file string, fs afero.Fs) error {
+func cliEncode(sc cdScenario, text, f string, compact bool, file string, fs afero.Fs, prior []byte) error {
 	dir, err := os.MkdirTemp(sc.Tmp, "cli")
 	if err != nil {
 		return err
@@ -221,6 +245,11 @@ func cliEncode(sc cdScenario, text, f string, compact bool, file string, fs afer
 		return err
 	}
 	outf := filepath.Join(dir, file)
+	if prior != nil {
+		if err := os.WriteFile(outf, prior, 0o644); err != nil {
+			return err
+		}
+	}
 	args := []string{"--root", root, "pb", "--mode", f, "-o", outf}
 	if compact {
 		args = append(args, "--compact")
